@@ -24,9 +24,10 @@ class It:
 class Mini:
     def __init__(self, fn, budget=20000):
         self.fn = fn
-        self.budget = budget
+        self.budget = self.budget0 = budget
 
     def call(self, *args):
+        self.budget = self.budget0
         ps = self.fn['params']
         if len(ps) != len(args):
             raise AnalysisBroken('minieval: arity of %s' % self.fn['qn'])
